@@ -209,3 +209,36 @@ Section Agreement.
       try reflexivity; now rewrite IH.
   Qed.
 End Agreement.
+
+Section Entry.
+  Variable ro : parse_options.
+  Variable alpha : N -> bool.
+  Variable fast : bool.
+  Variable std_parse : N -> Z -> f64.
+
+  Lemma agree_expect fuel :
+    agree dvalue (expect_value ro alpha fast std_parse fuel) (expect_datum ro alpha fast std_parse fuel).
+  Proof.
+    unfold expect_value, expect_datum.
+    apply (agree_bind_map _ (option_map dvalue)); [apply agreement|].
+    intros [d|]; [apply agree_ret|apply agree_peek_error].
+  Qed.
+
+  Lemma from_trait_agree k inp :
+    from_trait ro alpha fast std_parse k inp =
+    match datum_from_trait ro alpha fast std_parse k inp with
+    | POk d => POk (dvalue d)
+    | PErr e => PErr e
+    end.
+  Proof.
+    unfold from_trait, datum_from_trait.
+    assert (H : agree dvalue
+                  (pbind (expect_value ro alpha fast std_parse (fuel_for inp))
+                         (fun v => pbind (expect_end_p (fuel_for inp)) (fun _ => pret v)))
+                  (pbind (expect_datum ro alpha fast std_parse (fuel_for inp))
+                         (fun d => pbind (expect_end_p (fuel_for inp)) (fun _ => pret d)))).
+    { apply (agree_bind_map _ dvalue); [apply agree_expect|].
+      intros d. apply agree_bind_same; intros _. apply agree_ret. }
+    rewrite (H (init_state k inp)). reflexivity.
+  Qed.
+End Entry.
